@@ -1,10 +1,69 @@
 /-
   EG.Driver.Fb — model side of the `fb.*` correspondence streams (harness/src/m_fb.rs).
+
+  fb.hist <bits> <order 0|1> <W> <H> <extra> <op> <op> ...
+     op = comma list of integers, first item the kind:
+       0,x,y,c              set_pixel((x,y), c)
+       1,x,y,c,x,y,c,...    draw_iter of those pixels
+       2,x,y,w,h,c          fill_solid(Rectangle((x,y),(w,h)), c)
+       3,c                  clear(c)
+       4,x,y,w,h,c,c,...    fill_contiguous(Rectangle((x,y),(w,h)), [c, c, ...])
+     The buffer has N = BUFFER_SIZE + extra bytes; the extra bytes are pre-set (through
+     `data_mut()`) to 0xA5, 0x5A, 0xC3, ... so that a write into them is visible.
+     -> `d=<data() bytes> p=<pixel() over y = -1..=H, x = -1..=W, row-major; n = None>
+         img=<pixel map left by drawing as_image() at the origin>`
 -/
 import EG.Driver.Util
+import EG.Driver.Raw
+import EG.Model.Framebuffer
 namespace EG.Driver
-open EG
+open EG EG.Raw EG.Fb
 
-def handleFb (_stream : String) (_t : Toks) : Option String := none
+def tailPattern : List Nat := [0xA5, 0x5A, 0xC3, 0x3C, 0x99, 0x66, 0xF0, 0x0F]
+
+def fbInit (bits : Nat) (o : Order) (w h extra : Nat) : Fb :=
+  ⟨bits, o, w, h, List.replicate (bufferSize w h bits) 0 ++ tailPattern.take extra⟩
+
+def triples : List Int → Writes
+  | x :: y :: c :: rest => (⟨x, y⟩, c.toNat) :: triples rest
+  | _ => []
+
+def fbOp (fb : Fb) (op : List Int) : Fb :=
+  match op with
+  | [0, x, y, c] => fb.setPixel ⟨x, y⟩ c.toNat
+  | 1 :: rest => fb.call (.drawIter (triples rest))
+  | [2, x, y, w, h, c] => fb.call (.fillSolid ⟨⟨x, y⟩, ⟨w.toNat, h.toNat⟩⟩ c.toNat)
+  | [3, c] => fb.call (.clear c.toNat)
+  | 4 :: x :: y :: w :: h :: cs => fb.call (.fillContiguous ⟨⟨x, y⟩, ⟨w.toNat, h.toNat⟩⟩ (cs.map Int.toNat))
+  | _ => fb
+
+def fmtOptN : Option Nat → String
+  | some v => toString v
+  | none => "n"
+
+def fbGrid (fb : Fb) : String :=
+  let ys := irange (-1) (fb.height + 1)
+  let xs := irange (-1) (fb.width + 1)
+  joinOr "," (ys.flatMap (fun y => xs.map (fun x => fmtOptN (fb.pixel ⟨x, y⟩))))
+
+def fbImageMap (fb : Fb) : String :=
+  let ys := irange 0 fb.height
+  let xs := irange 0 fb.width
+  joinOr ";" (ys.flatMap (fun y => xs.filterMap (fun x =>
+    match fb.pixel ⟨x, y⟩ with
+    | some c => some s!"{x},{y},{c}"
+    | none => none)))
+
+def handleFb (stream : String) (t : Toks) : Option String :=
+  match stream with
+  | "fb.hist" =>
+    let (bits, t) := t.nat
+    let (o, t) := t.nat
+    let (w, t) := t.nat
+    let (h, t) := t.nat
+    let (extra, t) := t.nat
+    let fb := t.foldl (fun fb tok => fbOp fb (parseIntList tok)) (fbInit bits (orderOf o) w h extra)
+    some s!"d={fmtNats fb.data} p={fbGrid fb} img={fbImageMap fb}"
+  | _ => none
 
 end EG.Driver
